@@ -140,7 +140,7 @@ class Session:
         if "is violated" in out and "invariant" not in res:
             m = re.search(r"Error: (.*is violated.*)", out)
             res["invariant"] = m.group(1) if m else "?"
-        if "Temporal properties were violated" in out:
+        if "Temporal properties were violated" in out or re.search(r"Error: Temporal property \S+ was violated", out):
             res["invariant"] = "temporal"
         res["ok"] = ("Model checking completed. No error has been found." in out) and p.returncode == 0
         res["violation"] = "invariant" in res
